@@ -3,6 +3,7 @@ package translate
 import (
 	"errors"
 	"fmt"
+	"slices"
 
 	"github.com/specterops/dawgs/cypher/models"
 	"github.com/specterops/dawgs/cypher/models/pgsql"
@@ -2242,6 +2243,9 @@ func rewriteCurrentFrameProjectionSelect(selectBody pgsql.Select, frameID pgsql.
 	return selectBody
 }
 
+// rewriteCurrentFrameProjectionReferences returns a rewritten copy. The nodes it is handed may be shared with
+// other frames - a pushed-down suffix reuses the constraints of the steps it was taken from - so pointer nodes
+// and slices are copied before anything is replaced in them.
 func rewriteCurrentFrameProjectionReferences(expression pgsql.Expression, frameID pgsql.Identifier, aliases map[pgsql.Identifier]pgsql.Expression) pgsql.Expression {
 	if expression == nil {
 		return nil
@@ -2266,6 +2270,8 @@ func rewriteCurrentFrameProjectionReferences(expression pgsql.Expression, frameI
 		return typedExpression
 
 	case *pgsql.UnaryExpression:
+		copied := *typedExpression
+		typedExpression = &copied
 		typedExpression.Operand = rewriteCurrentFrameProjectionReferences(typedExpression.Operand, frameID, aliases)
 		return typedExpression
 
@@ -2275,17 +2281,23 @@ func rewriteCurrentFrameProjectionReferences(expression pgsql.Expression, frameI
 		return typedExpression
 
 	case *pgsql.BinaryExpression:
+		copied := *typedExpression
+		typedExpression = &copied
 		typedExpression.LOperand = rewriteCurrentFrameProjectionReferences(typedExpression.LOperand, frameID, aliases)
 		typedExpression.ROperand = rewriteCurrentFrameProjectionReferences(typedExpression.ROperand, frameID, aliases)
 		return typedExpression
 
 	case pgsql.FunctionCall:
+		typedExpression.Parameters = slices.Clone(typedExpression.Parameters)
 		for idx, parameter := range typedExpression.Parameters {
 			typedExpression.Parameters[idx] = rewriteCurrentFrameProjectionReferences(parameter, frameID, aliases)
 		}
 		return typedExpression
 
 	case *pgsql.FunctionCall:
+		copied := *typedExpression
+		typedExpression = &copied
+		typedExpression.Parameters = slices.Clone(typedExpression.Parameters)
 		for idx, parameter := range typedExpression.Parameters {
 			typedExpression.Parameters[idx] = rewriteCurrentFrameProjectionReferences(parameter, frameID, aliases)
 		}
@@ -2296,20 +2308,26 @@ func rewriteCurrentFrameProjectionReferences(expression pgsql.Expression, frameI
 		return typedExpression
 
 	case pgsql.CompositeValue:
+		typedExpression.Values = slices.Clone(typedExpression.Values)
 		for idx, value := range typedExpression.Values {
 			typedExpression.Values[idx] = rewriteCurrentFrameProjectionReferences(value, frameID, aliases)
 		}
 		return typedExpression
 
 	case *pgsql.Parenthetical:
+		copied := *typedExpression
+		typedExpression = &copied
 		typedExpression.Expression = rewriteCurrentFrameProjectionReferences(typedExpression.Expression, frameID, aliases)
 		return typedExpression
 
 	case *pgsql.EdgeArrayFromPathIDs:
+		copied := *typedExpression
+		typedExpression = &copied
 		typedExpression.PathIDs = rewriteCurrentFrameProjectionReferences(typedExpression.PathIDs, frameID, aliases)
 		return typedExpression
 
 	case pgsql.ArrayLiteral:
+		typedExpression.Values = slices.Clone(typedExpression.Values)
 		for idx, value := range typedExpression.Values {
 			typedExpression.Values[idx] = rewriteCurrentFrameProjectionReferences(value, frameID, aliases)
 		}
@@ -2321,13 +2339,17 @@ func rewriteCurrentFrameProjectionReferences(expression pgsql.Expression, frameI
 
 	case pgsql.ArrayIndex:
 		typedExpression.Expression = rewriteCurrentFrameProjectionReferences(typedExpression.Expression, frameID, aliases)
+		typedExpression.Indexes = slices.Clone(typedExpression.Indexes)
 		for idx, index := range typedExpression.Indexes {
 			typedExpression.Indexes[idx] = rewriteCurrentFrameProjectionReferences(index, frameID, aliases)
 		}
 		return typedExpression
 
 	case *pgsql.ArrayIndex:
+		copied := *typedExpression
+		typedExpression = &copied
 		typedExpression.Expression = rewriteCurrentFrameProjectionReferences(typedExpression.Expression, frameID, aliases)
+		typedExpression.Indexes = slices.Clone(typedExpression.Indexes)
 		for idx, index := range typedExpression.Indexes {
 			typedExpression.Indexes[idx] = rewriteCurrentFrameProjectionReferences(index, frameID, aliases)
 		}
@@ -2340,6 +2362,8 @@ func rewriteCurrentFrameProjectionReferences(expression pgsql.Expression, frameI
 		return typedExpression
 
 	case *pgsql.ArraySlice:
+		copied := *typedExpression
+		typedExpression = &copied
 		typedExpression.Expression = rewriteCurrentFrameProjectionReferences(typedExpression.Expression, frameID, aliases)
 		typedExpression.Lower = rewriteCurrentFrameProjectionReferences(typedExpression.Lower, frameID, aliases)
 		typedExpression.Upper = rewriteCurrentFrameProjectionReferences(typedExpression.Upper, frameID, aliases)
@@ -2350,6 +2374,8 @@ func rewriteCurrentFrameProjectionReferences(expression pgsql.Expression, frameI
 		return typedExpression
 
 	case *pgsql.AllExpression:
+		copied := *typedExpression
+		typedExpression = &copied
 		typedExpression.Expression = rewriteCurrentFrameProjectionReferences(typedExpression.Expression, frameID, aliases)
 		return typedExpression
 
@@ -2358,14 +2384,18 @@ func rewriteCurrentFrameProjectionReferences(expression pgsql.Expression, frameI
 		return typedExpression
 
 	case *pgsql.AnyExpression:
+		copied := *typedExpression
+		typedExpression = &copied
 		typedExpression.Expression = rewriteCurrentFrameProjectionReferences(typedExpression.Expression, frameID, aliases)
 		return typedExpression
 
 	case pgsql.Case:
 		typedExpression.Operand = rewriteCurrentFrameProjectionReferences(typedExpression.Operand, frameID, aliases)
+		typedExpression.Conditions = slices.Clone(typedExpression.Conditions)
 		for idx, condition := range typedExpression.Conditions {
 			typedExpression.Conditions[idx] = rewriteCurrentFrameProjectionReferences(condition, frameID, aliases)
 		}
+		typedExpression.Then = slices.Clone(typedExpression.Then)
 		for idx, then := range typedExpression.Then {
 			typedExpression.Then[idx] = rewriteCurrentFrameProjectionReferences(then, frameID, aliases)
 		}
@@ -2373,10 +2403,14 @@ func rewriteCurrentFrameProjectionReferences(expression pgsql.Expression, frameI
 		return typedExpression
 
 	case *pgsql.Case:
+		copied := *typedExpression
+		typedExpression = &copied
 		typedExpression.Operand = rewriteCurrentFrameProjectionReferences(typedExpression.Operand, frameID, aliases)
+		typedExpression.Conditions = slices.Clone(typedExpression.Conditions)
 		for idx, condition := range typedExpression.Conditions {
 			typedExpression.Conditions[idx] = rewriteCurrentFrameProjectionReferences(condition, frameID, aliases)
 		}
+		typedExpression.Then = slices.Clone(typedExpression.Then)
 		for idx, then := range typedExpression.Then {
 			typedExpression.Then[idx] = rewriteCurrentFrameProjectionReferences(then, frameID, aliases)
 		}
@@ -2421,6 +2455,8 @@ func rewriteCurrentFrameProjectionReferences(expression pgsql.Expression, frameI
 		return typedExpression
 
 	case *pgsql.AliasedExpression:
+		copied := *typedExpression
+		typedExpression = &copied
 		typedExpression.Expression = rewriteCurrentFrameProjectionReferences(typedExpression.Expression, frameID, aliases)
 		return typedExpression
 
